@@ -50,7 +50,7 @@ func (j job) prmString() string {
 	return strings.Join(s, ",")
 }
 
-var traceScripts = []string{"basic", "retention", "baseline", "reset", "resetfetch", "republish", "rerestore", "follow", "sidecar", "checkpoint"}
+var traceScripts = []string{"basic", "retention", "baseline", "reset", "resetfetch", "republish", "rerestore", "follow", "restorev3", "followstart", "sidecar", "checkpoint"}
 
 func drawJob(r *rand.Rand, script string) job {
 	return job{Script: script, Seed: r.Int63n(1 << 30), Prm: []int{2 + r.Intn(4), 1 + r.Intn(4), 50 + r.Intn(3000)}}
@@ -75,7 +75,7 @@ func runTraced(self, dir string, j job) (*runResult, error) {
 	if err := os.MkdirAll(dir, 0o755); err != nil {
 		return nil, err
 	}
-	red := newReducer(dir, j.Script == "follow")
+	red := newReducer(dir, j.Script == "follow" || j.Script == "followstart")
 	res := &runResult{dir: dir, red: red, init: red.listAlphabet()}
 	tr := dir + ".strace"
 	args := []string{"-f", "-y", "-s", "220", "-o", tr, "-e", "trace=" + traceSet}
@@ -193,7 +193,9 @@ func modeTrace(self, out string, n int, seed int64, replay *job) error {
 
 // ---- C03 -----------------------------------------------------------------------
 
-var killScripts = []string{"basic", "reset", "resetfetch", "republish", "retention", "baseline", "rerestore", "checkpoint", "follow", "sidecar"}
+var killScripts = []string{"basic", "followstart", "restorev3", "reset", "resetfetch", "republish", "retention", "baseline", "rerestore", "checkpoint", "follow", "sidecar"}
+
+var dense = map[string]bool{"followstart": true, "restorev3": true}
 
 func verifyLTX(path string) (err error) {
 	defer func() {
@@ -230,6 +232,19 @@ func readAcks(dir string) []ackLine {
 	for _, l := range strings.Split(string(b), "\n") {
 		if a, ok := parseAckLine(l); ok {
 			out = append(out, a)
+		}
+	}
+	return out
+}
+
+// readNotes returns the "N ..." progress lines of the marker file.
+func readNotes(dir string) [][]string {
+	b, _ := os.ReadFile(filepath.Join(dir, ackName))
+	var out [][]string
+	for _, l := range strings.Split(string(b), "\n") {
+		f := strings.Fields(l)
+		if len(f) >= 2 && f[0] == "N" {
+			out = append(out, f[1:])
 		}
 	}
 	return out
@@ -273,6 +288,20 @@ func inspect(self string, j job, res *runResult) (viol []ImplViolation) {
 			lastR = a
 		}
 	}
+	expect := map[string]string{}
+	v3ready := false
+	for _, n := range readNotes(dir) {
+		if n[0] == "v3ready" {
+			v3ready = true
+		}
+		if n[0] == "digest" && len(n) == 2 {
+			digests[n[1]] = true
+		}
+		if n[0] == "expect" && len(n) == 3 {
+			expect[n[1]] = n[2]
+		}
+	}
+	follower := j.Script == "follow" || j.Script == "followstart"
 	// (1) nothing partial under a final LTX name; acknowledged LTX names still there unless superseded
 	var ltxFiles []string
 	_ = filepath.Walk(dir, func(p string, info os.FileInfo, err error) error {
@@ -290,8 +319,8 @@ func inspect(self string, j job, res *runResult) (viol []ImplViolation) {
 	// (2) restore output and sidecar are absent or complete
 	outs, _ := filepath.Glob(filepath.Join(dir, restoreDir, "*.db"))
 	for _, o := range outs {
-		if j.Script == "follow" {
-			continue // written in place by design; convergence is C16's subject
+		if follower {
+			continue // written in place by design; checked after the follower restart below
 		}
 		d, err := appDigest(o)
 		rel, _ := filepath.Rel(dir, o)
@@ -318,6 +347,28 @@ func inspect(self string, j job, res *runResult) (viol []ImplViolation) {
 			add("C03/acknowledged-txid-restores-differently", fmt.Sprintf("kill before call %d of %s: restore of acknowledged TXID %d gives %s, acknowledged state was %s", j.At, j.Script, lastR.TXID, d, lastR.Digest))
 		}
 	}
+	// (4v3) a killed v0.3.x restore: run it again (no repair); every output must then exist
+	// and hold exactly the state of its replica
+	if j.Script == "restorev3" {
+		if !v3ready {
+			return viol // the kill hit the harness's own construction of the v0.3.x replicas
+		}
+		ctx, cancel := context.WithTimeout(context.Background(), 60*time.Second)
+		cmd := exec.CommandContext(ctx, self, "-child", "resumev3", "-dir", dir, "-seed", fmt.Sprint(j.Seed+1))
+		outb, err := cmd.CombinedOutput()
+		cancel()
+		if err != nil {
+			add("C03/restart-needs-repair:restore-v3", fmt.Sprintf("kill before call %d of %s: running the v0.3.x restore again fails: %v %s", j.At, j.Script, err, tail(string(outb), 500)))
+		} else {
+			for rel, want := range expect {
+				d, err := appDigest(filepath.Join(dir, rel))
+				if err != nil || d != want {
+					add("C03/restore-v3-output-wrong-after-restart", fmt.Sprintf("kill before call %d of %s: %s after re-running the restore: digest %s (err %v), replica state is %s", j.At, j.Script, rel, d, err, want))
+				}
+			}
+		}
+		return viol
+	}
 	// (4) restart without repair, one more acknowledged sync, restore equals source
 	if j.Script != "sidecar" {
 		ctx, cancel := context.WithTimeout(context.Background(), 60*time.Second)
@@ -337,6 +388,19 @@ func inspect(self string, j job, res *runResult) (viol []ImplViolation) {
 					add("C03/after-restart-not-restorable", fmt.Sprintf("kill before call %d of %s: restore after restart (TXID %d) fails: %v", j.At, j.Script, last.TXID, err))
 				} else if d != last.Digest {
 					add("C03/after-restart-restores-differently", fmt.Sprintf("kill before call %d of %s: restore after restart (TXID %d) gives %s, source is %s", j.At, j.Script, last.TXID, d, last.Digest))
+				}
+				// (5) the FOLLOWER is restarted too: Restore(Follow) again on the same output must
+				// resume (or start afresh) without manual repair and converge to the primary
+				if follower {
+					ctx, cancel := context.WithTimeout(context.Background(), 60*time.Second)
+					cmd := exec.CommandContext(ctx, self, "-child", "refollow", "-dir", dir, "-seed", fmt.Sprint(j.Seed+2), "-prm", fmt.Sprint(last.TXID))
+					outb, err := cmd.CombinedOutput()
+					cancel()
+					if err != nil {
+						add("C03/restart-needs-repair:follower", fmt.Sprintf("kill before call %d of %s: restarting the follower (Restore with Follow on the same output) fails: %v %s", j.At, j.Script, err, tail(string(outb), 500)))
+					} else if fd, err := appDigest(filepath.Join(dir, restoreDir, outName)); err != nil || fd != last.Digest {
+						add("C03/follower-diverges-after-restart", fmt.Sprintf("kill before call %d of %s: restarted follower reached TXID %d but holds %s (err %v), primary is %s", j.At, j.Script, last.TXID, fd, err, last.Digest))
+					}
 				}
 			}
 		}
@@ -385,6 +449,9 @@ func modeKill(self, out string, n int, seed int64, kstep, points int, replay *jo
 					per = 1
 				}
 				step = (K + per - 1) / per
+				if dense[base.Script] && step > 3 {
+					step = 3 // short protocol scripts: every 3rd call, the windows are a few calls wide
+				}
 				if step < 1 {
 					step = 1
 				}
